@@ -1031,3 +1031,28 @@ func loopExitsOnlyAtHeader(in ssa.Instruction) (bool, string) {
 	}
 	return true, ""
 }
+
+// resolveLocalCopy: v loads a local cell that has exactly one store (a loop variable or a copy kept
+// in a variable because a field of it is addressed); returns the stored value, else v.
+func resolveLocalCopy(v ssa.Value) ssa.Value {
+	ld, ok := v.(*ssa.UnOp)
+	if !ok || ld.Op != token.MUL {
+		return v
+	}
+	cell, ok := ld.X.(*ssa.Alloc)
+	if !ok || cell.Referrers() == nil {
+		return v
+	}
+	var val ssa.Value
+	n := 0
+	for _, rf := range *cell.Referrers() {
+		if st, ok := rf.(*ssa.Store); ok && st.Addr == ssa.Value(cell) {
+			val = st.Val
+			n++
+		}
+	}
+	if n == 1 {
+		return val
+	}
+	return v
+}
